@@ -70,6 +70,17 @@ pub struct World {
 
 thread_local! {
     static WORLD: RefCell<World> = RefCell::new(World::default());
+    /// Extra property tag appended to count / final-state violations by harnesses that decide
+    /// another property with the same oracle (e.g. ",C18" in the panic-injection harnesses).
+    static EXTRA_TAG: RefCell<String> = const { RefCell::new(String::new()) };
+}
+
+pub fn set_extra_tag(t: &str) {
+    EXTRA_TAG.with(|e| *e.borrow_mut() = t.to_string());
+}
+
+fn tag(base: &str) -> String {
+    EXTRA_TAG.with(|e| format!("{}{}", base, e.borrow()))
 }
 
 pub fn world<R>(f: impl FnOnce(&mut World) -> R) -> R {
@@ -78,6 +89,7 @@ pub fn world<R>(f: impl FnOnce(&mut World) -> R) -> R {
 
 pub fn reset() {
     world(|w| *w = World::default());
+    set_extra_tag("");
 }
 
 pub fn record(rec: CallRec) {
@@ -324,7 +336,7 @@ pub fn check_counts<const TAG: u32>(owners: &HashMap<u64, usize>, whence: &str) 
             let strong = varc::peek_strong_at::<TAG>(addr);
             if expect == 0 {
                 rt::violation(
-                    "C02",
+                    &tag("C02"),
                     "count",
                     format!("{}: value #{} has no owner left but is still alive (count {}, {} debt slot(s)): leaked reference", whence, label, strong, in_slots),
                 );
@@ -332,7 +344,7 @@ pub fn check_counts<const TAG: u32>(owners: &HashMap<u64, usize>, whence: &str) 
             }
             if strong + in_slots != expect {
                 rt::violation(
-                    "C02",
+                    &tag("C02"),
                     "count",
                     format!(
                         "{}: value #{} has count {} plus {} debt slot(s) but {} owner(s) (containers + handles + guards)",
@@ -365,7 +377,7 @@ pub fn final_state_violation(expect_all_dead: bool) -> Option<(String, String, S
     if expect_all_dead {
         for (label, _addr, live, destroyed) in reg(|r| r.all()) {
             if live {
-                return Some(("C02".into(), "leak".into(), format!("value #{} is still alive after every owner is gone (leaked reference)", label)));
+                return Some((tag("C02"), "leak".into(), format!("value #{} is still alive after every owner is gone (leaked reference)", label)));
             }
             if destroyed != 1 {
                 return Some(("C02".into(), "count".into(), format!("value #{} was destroyed {} times", label, destroyed)));
@@ -376,7 +388,7 @@ pub fn final_state_violation(expect_all_dead: bool) -> Option<(String, String, S
     for (i, n) in nodes.iter().enumerate() {
         for (k, s) in n.fast.iter().enumerate() {
             if *s != arc_swap::verif::NO_DEBT {
-                return Some(("C02".into(), "slots".into(), format!("fast slot {} of node {} is still occupied ({:#x}) after all guards are gone", k, i, s)));
+                return Some((tag("C02"), "slots".into(), format!("fast slot {} of node {} is still occupied ({:#x}) after all guards are gone", k, i, s)));
             }
         }
         if n.helping_slot != arc_swap::verif::NO_DEBT {
